@@ -8,7 +8,7 @@ res() { echo "$C/$KO: $1"; git -C /repo worktree remove --force $W; rm -rf /tmp/
 B0=/tmp/seedbuild_${C}_${K}_orig; B1=/tmp/seedbuild_${C}_${K}_mut
 EXTRA_CFLAGS="-fsanitize=address,undefined" /verif/tools/native_build_and_test.sh $W $B0 >/dev/null 2>&1 || res "baseline build/tests fail"
 gcc -g -fsanitize=address,undefined -I$W/src $SRC/demo.c $B0/libconfuse.a -o $B0/demo 2>/dev/null || res "demo does not compile"
-( cd $W/tests && ASAN_OPTIONS=detect_leaks=1 timeout 60 $B0/demo >/dev/null 2>&1 ); d0=$?
+( cd $W/tests && ASAN_OPTIONS=${SEED_ASAN:-detect_leaks=1} timeout 60 $B0/demo >/dev/null 2>&1 ); d0=$?
 cd $W
 if ! git apply $SRC/patch.diff 2>/dev/null; then patch -p1 -s --fuzz=3 < $SRC/patch.diff >/dev/null 2>&1 || res "patch does not apply on the repaired tree" 3; fi
 find . -name '*.orig' -o -name '*.rej' | xargs rm -f
@@ -16,7 +16,7 @@ git diff -- src > /tmp/seedbuild_${C}_${K}.diff
 t1=$( /verif/tools/native_build_and_test.sh $W $B1 2>&1 | tail -1 )
 EXTRA_CFLAGS="-fsanitize=address,undefined" /verif/tools/native_build_and_test.sh $W $B1 >/dev/null 2>&1
 gcc -g -fsanitize=address,undefined -I$W/src $SRC/demo.c $B1/libconfuse.a -o $B1/demo 2>/dev/null || res "demo does not compile against the change"
-( cd $W/tests && ASAN_OPTIONS=detect_leaks=1 timeout 60 $B1/demo >/dev/null 2>&1 ); d1=$?
+( cd $W/tests && ASAN_OPTIONS=${SEED_ASAN:-detect_leaks=1} timeout 60 $B1/demo >/dev/null 2>&1 ); d1=$?
 case "$t1" in *"fail=0"*) ;; *) res "test-suite fails with the change ($t1)";; esac
 [ $d0 -eq 0 ] || res "demo fails on the unchanged (repaired) tree: exit $d0 - the seed's behaviour is already repaired or the demo depends on a repaired defect" 4
 [ $d1 -ne 0 ] || res "demo passes with the change" 5
